@@ -63,9 +63,11 @@ CHECKS["C13"] = dict(
   category="proof",
   text="split_by_match: loop invariant proved (index == previous match end, pieces == SPLITS(K)); replace: exact re.sub wiring and "
        "InvalidArgumentValueException iff count < 0; reconstruction lemmas over slices discharged by cvc5/z3 in the string theory. "
-       "split_by_capture is outside the verifier's loop forms: its contract is checked by a bounded stand-in only.",
-  note=G5NOTE + " split_by_capture: bounded (20 patterns x 14 texts x flags).",
-  technique="contract-based deductive verification (loop invariant, string-theory lemmas) + bounded stand-in for split_by_capture",
+       "split_by_capture: proved against a recursive specification over (match index, group counter) - outer loop cut on the "
+       "matches, inner loop folded over the list CAPPOS(match, ...) by its defining recursion; pieces = text[index:start] for every "
+       "participating (and, unless include_empty, non-empty) capture in order, then the rest of the text.",
+  note=G5NOTE + " The proved contracts are also evaluated at run time on the real code (cross-check, not counted).",
+  technique="contract-based deductive verification (loop invariants incl. a fold over a recursively defined list, string-theory lemmas)",
   design_ref="DESIGN.md section 8 (C13)")
 CHECKS["C14"] = dict(
   category="proof",
